@@ -106,8 +106,8 @@ def create_lib(creator, path, outfile, **kw):
     return out
 
 
-def create_cli(version, path, outfile, extra=()):
-    argv = ["create", "--meta-version", str(version), "-o", outfile, "--prog", "0"]
+def create_cli(version, path, outfile, extra=(), flags=()):
+    argv = list(flags) + ["create", "--meta-version", str(version), "-o", outfile, "--prog", "0"]
     argv += list(extra)
     argv.append(path)
     execute(argv)
